@@ -1428,7 +1428,7 @@ PTARGETS += [
          params={"iter": "IterSelf"}, recv={"iter": "Iter"}, mutable=["pull"], lets={"core_iter": "WrappedH", "guard": "CompleteOnUnwind"}),
     dict(ns="BufferedIterIter", file="iter/buffered/buffered_iter.rs", impl=r"impl<'a, T, B> BufferedIter", fns=["next"], self_ty="BufferedIterSelfP",
          recv={"self.atomic_iter": "Iter", "self.buffered_iter": "BufIter"}, mutable=["next"]),
-    dict(ns="ChunkIt", file="iter/buffered/iter.rs", impl=r"Iterator for BufferedIter<'a, T>", fns=["next"], self_ty="BufferedIter", mutable=["next"],
+    dict(ns="ChunkIt", file="iter/buffered/iter.rs", impl=r"Iterator for BufferedIter<'a, T>", fns=["next", "size_hint"], self_ty="BufferedIter", mutable=["next"],
          lets={"next": "Option Nat"}),
     dict(ns="ChunkIt", file="iter/buffered/iter.rs", impl=r"ExactSizeIterator for BufferedIter<'a, T>", fns=["len"], self_ty="BufferedIter"),
 ]
